@@ -49,7 +49,8 @@ prop("C20",
                 "only under the 'every statement may raise' abstraction.")
 
 prop("C19",
-     [r_hdrt.rule_catchall, r_hdrt.rule_total, r_hdrt.rule_steer_lookup, r_hdrt.rule_no_state],
+     [r_hdrt.rule_catchall, r_hdrt.rule_total, r_hdrt.rule_steer_lookup, r_hdrt.rule_no_state, r_hdrt.rule_flag_forward,
+      r_sec.rule_end_test],
      "Error-discipline analysis of the header loop (reader.parse_header_items_section): the call that parses a raw "
      "line is inside a try with a catch-all handler; by control dependence the handler raises only when "
      "ignore_header_errors is false, then raises LASHeaderError whose message derives (provenance) from the line, "
@@ -72,7 +73,8 @@ prop("C19",
                 "lines that parse is not decided.")
 
 prop("C16",
-     [r_wrf.rule_frame, r_wrf.rule_standardize, r_wrf.rule_refresh, r_wrf.rule_determinism, r_wl.rule_measure, r_wl.rule_copy_vers],
+     [r_wrf.rule_frame, r_wrf.rule_standardize, r_wrf.rule_refresh, r_wrf.rule_determinism, r_wl.rule_measure, r_wl.rule_copy_vers,
+      r_wrf.rule_snapshot],
      "Frame condition by may-write effect summaries: the set of locations writer.write / LASFile.write may modify "
      "through the LASFile (access paths with aliasing through loop variables and properties, propagated over the "
      "resolved call graph; SectionItems/HeaderItem hooks by contract) is a subset of the documented side effects - "
@@ -114,7 +116,8 @@ prop("C15",
                 "necessary condition); behaviour on concrete section states is not executed.")
 
 prop("C13",
-     [r_si.rule_suffix_after_insert, r_si.rule_suffix_algo, r_si.rule_session_only, r_si.rule_unknown],
+     [r_si.rule_suffix_after_insert, r_si.rule_suffix_algo, r_si.rule_session_only, r_si.rule_unknown, r_si.rule_compare,
+      r_si.rule_pk_state, r_wl.rule_orig_mnem],
      "Pairing rule on CFG paths: in every SectionItems method each placement of an item through list.append/insert/"
      "__setitem__/extend is followed on every path to a normal return by assign_duplicate_suffixes, called "
      "unconditionally with the new item's useful_mnemonic; LASFile.set_data re-assigns all suffixes after renaming "
@@ -131,7 +134,7 @@ prop("C13",
                 "shape; distinctness for every multiset/history is not decided.")
 
 prop("C17",
-     [r_si.rule_pk_state, r_si.rule_pk_rebuild],
+     [r_si.rule_pk_state, r_si.rule_pk_rebuild, r_si.rule_pk_ctor, r_si.rule_pk_independent, r_si.rule_suffix_algo],
      "State-coverage check: the census of attributes an item can hold (every self.X store and "
      "__setattr__('X') in HeaderItem/CurveItem) is compared with what HeaderItem.__reduce__ hands to the "
      "constructor and to __setstate__: argument 0 derives from self.original_mnemonic (not the session name), the "
@@ -147,7 +150,7 @@ prop("C17",
                 "objects is not executed.")
 
 prop("C08",
-     [r_num.rule_numlit, r_num.rule_finite_default, r_num.rule_exempt, r_num.rule_curve_raw],
+     [r_num.rule_numlit, r_num.rule_finite_default, r_num.rule_exempt, r_num.rule_curve_raw, r_wl.rule_ord_bijection],
      "Guard-language analysis: every text->number constructor in SectionParser.num (int/float/np.int64/np.float64 on "
      "the argument) is reachable, from the entry or from any later re-definition of the value, only across the edge of "
      "a test on which `<regex>.fullmatch(value)` succeeded (truth table of the test over match/is-str atoms; CFG with "
@@ -168,7 +171,7 @@ prop("C08",
 
 prop("C05",
      [r_sec.rule_scan, r_sec.rule_convention, r_sec.rule_end_test, r_sec.rule_case, r_sec.rule_steer,
-      r_sec.rule_title_pred, r_sec.rule_route, r_sec.rule_reseek],
+      r_sec.rule_title_pred, r_sec.rule_route, r_sec.rule_reseek, r_sec.rule_section_type],
      "Section-interval analysis. The title scan tests every line it reads (every readline() is assigned to the scanned "
      "variable, no nested consumption), advances its counter once per line and records a section start under the title "
      "predicate only (SEC.SCAN); all recorded section ends have the same offset from the boundary line (affine "
@@ -194,7 +197,8 @@ prop("C05",
                 "consumer) on the analysed source; attribution of every concrete line is not executed.")
 
 prop("C06",
-     [r_data.rule_null_guard, r_data.rule_null_table, r_data.rule_null_write, r_sec.rule_steer, r_data.rule_counter],
+     [r_data.rule_null_guard, r_data.rule_null_table, r_data.rule_null_write, r_sec.rule_steer, r_data.rule_counter,
+      r_data.rule_null_flat],
      "Guard analysis of the NULL->NaN store in LASFile.read: the store `column[mask] = nan` must exist, its mask must be "
      "an exact `column == <value taken from ~Well NULL>` with no call and no tolerance/rounding function in its "
      "provenance (NULL.EXACT), and by control dependence it executes exactly under: the policy flag (third result of "
@@ -212,7 +216,7 @@ prop("C06",
 
 prop("C07",
      [r_data.rule_wrap_count, r_data.rule_tokenizer, r_sec.rule_line_normalise, r_data.rule_counter, r_data.rule_reshape,
-      r_data.rule_split, r_sec.rule_reseek],
+      r_data.rule_split, r_sec.rule_reseek, r_sec.rule_end_test, r_si.rule_compare, r_sec.rule_content_only_effects],
      "Column binding analysis: under the assumption WRAP == YES with declared curves, an explicit-state search of "
      "LASFile.read shows that the n_columns argument of the reference engine is never the per-line count sniffed by "
      "inspect_data_section, and all tests on the WRAP value fold to the same predicate over 9 probe values "
@@ -232,7 +236,7 @@ prop("C07",
 
 prop("C01",
      [r_data.rule_wrap_count, r_data.rule_wrap_tokens, r_data.rule_null_write, r_data.rule_null_guard, r_data.rule_reshape,
-      r_data.rule_counter],
+      r_data.rule_counter, r_data.rule_null_flat, r_data.rule_read_subs, r_si.rule_compare],
      "Write->read pairing clauses: lasio's own wrapped output is re-read with the declared curve count, never the sniffed "
      "per-line count (DATA.WRAP-COUNT, explicit-state search under WRAP == YES); the writer's TextWrapper has "
      "width=data_width, break_long_words=False, break_on_hyphens=False, so lines break only at the blanks between values "
@@ -247,7 +251,8 @@ prop("C01",
 
 prop("C09",
      [r_data.rule_tokenizer, r_data.rule_trim, r_sec.rule_title_pred, r_sec.rule_end_test, r_sec.rule_line_normalise,
-      r_sec.rule_reseek, r_data.rule_wrap_count, r_sec.rule_convention],
+      r_sec.rule_reseek, r_data.rule_wrap_count, r_sec.rule_convention, r_data.rule_orient, r_sec.rule_content_only_effects,
+      r_data.rule_read_subs],
      "Presentation-invariance clauses: the sniffer tokenises with the reader's DLM splitter (DATA.TOKENIZER); every "
      "splitter of the factory yields whitespace-free tokens - decided on the regex AST as a character set, or by strip() "
      "of each field - and comma splitting is positional (DATA.TRIM, DATA.SPLIT; COMMA and TAB trimming are recorded known "
@@ -265,7 +270,7 @@ prop("C09",
 
 prop("C02",
      [r_sec.rule_convention, r_sec.rule_end_test, r_sec.rule_line_normalise, r_data.rule_orient, r_data.rule_reshape,
-      r_sec.rule_reseek, r_sec.rule_scan],
+      r_sec.rule_reseek, r_sec.rule_scan, r_data.rule_null_flat, r_data.rule_split, r_sec.rule_content_only_effects],
      "Engine-agreement clauses: both engines get the same line window - one interval convention for every section end and "
      "the matching affine skip_header = first+1 / max_rows = last-first after seek(0) in the fast engine (SEC.CONVENTION, "
      "SEC.SCAN); the reference engine and the sniffer count every physical line once, test for the section end on every "
@@ -281,7 +286,7 @@ prop("C02",
                 "value-level identity of the parsed numbers is not decided.")
 
 prop("C04",
-     [r_gr.rule_grammar, r_gr.rule_select, r_gr.rule_strip],
+     [r_gr.rule_grammar, r_gr.rule_select, r_gr.rule_strip, r_hdrt.rule_no_state],
      "Grammar summary by path enumeration: configure_metadata_patterns is enumerated over all consistent outcomes of its "
      "tests (same test text => same truth value), its pattern strings are constant-propagated, and each assembled "
      "pattern list is compared - as a canonical regex structure from re._parser: character classes as sets over a probe "
@@ -303,7 +308,8 @@ prop("C04",
 
 prop("C03",
      [r_wl.rule_measure, r_wl.rule_order_key, r_wl.rule_orig_mnem, r_wl.rule_template, r_wl.rule_hdr_post,
-      r_wl.rule_ord_bijection, r_wl.rule_key_norm, r_gr.rule_grammar, r_gr.rule_select, r_gr.rule_strip, r_wrf.rule_standardize],
+      r_wl.rule_ord_bijection, r_wl.rule_key_norm, r_gr.rule_grammar, r_gr.rule_select, r_gr.rule_strip, r_wrf.rule_standardize,
+      r_hdrt.rule_no_state, r_si.rule_pk_state, r_num.rule_finite_default, r_num.rule_curve_raw],
      "Header write->read pairing clauses. Stage order per section in writer.write by CFG reachability: unit alignment / "
      "refresh -> normalisation by standardize_value -> width measurement -> formatting, no later stage followed by an "
      "earlier one (WR.MEASURE); every order lookup in the writer (5 call sites) is keyed by provenance by the item's "
@@ -323,7 +329,7 @@ prop("C03",
 
 prop("C12",
      [r_wl.rule_ord_table, r_wl.rule_ord_bijection, r_wl.rule_key_norm, r_wl.rule_order_key, r_wl.rule_copy_vers,
-      r_wl.rule_measure],
+      r_wl.rule_measure, r_wl.rule_template, r_num.rule_curve_raw],
      "Order-table agreement: the folded defaults.ORDER_DEFINITIONS has every version the writer admits, all four "
      "sections per version, well-formed (order, mnemonics) exceptions, 1.x ~Well = descr:value except STRT/STOP/STEP/NULL "
      "and 2.x/3.0 = value:descr throughout; reader (SectionParser.__init__) and writer (get_section_order_function) "
@@ -340,7 +346,8 @@ prop("C12",
 
 prop("C11",
      [r_wl.rule_template, r_wl.rule_measure, r_wl.rule_order_key, r_wl.rule_orig_mnem, r_si.rule_session_only,
-      r_si.rule_pk_state, r_wrf.rule_refresh, r_wrf.rule_standardize, r_gr.rule_grammar],
+      r_si.rule_pk_state, r_wrf.rule_refresh, r_wrf.rule_standardize, r_gr.rule_grammar, r_gr.rule_strip, r_wl.rule_key_norm,
+      r_wl.rule_ord_bijection, r_data.rule_wrap_count, r_data.rule_wrap_tokens],
      "Necessary conditions of the read->write fixed point only: the writer's template puts '.' directly before the unit "
      "and ' : ' before the tail, which the reader's structurally decided grammar splits back (WR.TEMPLATE, HDR.GRAMMAR) - "
      "no fields migrating between unit, value and description requires also that widths are measured on final values and "
@@ -362,7 +369,7 @@ def _to_csv_typestate(ctx):
 
 prop("C14",
      [r_lp.rule_views, r_lp.rule_route, r_lp.rule_rank, r_lp.rule_no_inplace, r_lp.rule_pu_fresh, r_si.rule_suffix_after_insert,
-      r_si.rule_session_only],
+      r_si.rule_session_only, r_si.rule_compare, r_si.rule_accessors],
      "List-model clauses: every view (keys, values, items, __getitem__, data, index, curvesdict, get_curve, df, "
      "stack_curves) reads curve state through self.curves only, and no LASFile attribute other than `sections` is ever "
      "assigned from curve data (attribute-store census with provenance; LF.VIEWS); the ten curve mutators change the list "
@@ -397,7 +404,7 @@ prop("C10",
 
 prop("C18",
      [r_ex.rule_json_total, r_ex.rule_json_nan, r_ex.rule_isnan_guard, r_ex.rule_depth, r_ex.rule_csv, r_ex.rule_xlsx,
-      r_ex.rule_df, _to_csv_typestate],
+      r_ex.rule_df, _to_csv_typestate, r_ex.rule_dictview, r_ex.rule_table_literals],
      "Export clauses: every CFG path through JSONEncoder.default returns a value, raises or delegates to the base class "
      "(no fall-through to null) and numpy integers are converted (EX.JSON-TOTAL); curve samples and header values are "
      "placed in the JSON document only through an unconditional comprehension whose element is the NaN->None map "
